@@ -476,6 +476,14 @@ k("K185", "C03", "frame/encode.go", "\t\tframe.Header.BodyLength = int32(len(fra
 k("K186", "C12", "datacodec/decimal.go", "\tbinary.BigEndian.PutUint32(dest, uint32(val.Scale))", "\tscale := val.Scale\n\tif val.Unscaled == nil {\n\t\tscale = 0\n\t}\n\tbinary.BigEndian.PutUint32(dest, uint32(scale))",
   "value-layout:decimal encode", "scale replaced by a constant on one path")
 
+k("K187", "C15", "client/client.go", "\t\t} else {\n\t\t\taccumulator.targetLength = int(primitive.FrameHeaderLengthV3AndHigher + header.BodyLength)", "\t\t} else if header.BodyLength > 1<<20 {\n\t\t\treturn true\n\t\t} else {\n\t\t\taccumulator.targetLength = int(primitive.FrameHeaderLengthV3AndHigher + header.BodyLength)",
+  "accumulator-refusal:(*client.CqlClientConnection).addMultiSegmentPayload", "a large multi-segment frame is refused by the accumulator itself")
+
+k("K188", "C06", "segment/decode.go", "\tpayload := &Payload{Crc32: actualPayloadCrc}\n\t// Decompress payload if needed\n\tif c.compressor == nil || header.CompressedPayloadLength == 0 {", "\tpayload := &Payload{Crc32: actualPayloadCrc}\n\t// Decompress payload if needed\n\tif c.compressor == nil || length == header.UncompressedPayloadLength {",
+  "decode-decision:", "decoder re-derives 'stored as is' from two lengths being equal")
+k("K189", "C08", "segment/encode.go", "\t\tif segment.Header.CompressedPayloadLength <= segment.Header.UncompressedPayloadLength {\n\t\t\tpayload = compressedPayload", "\t\tif segment.Header.CompressedPayloadLength <= segment.Header.UncompressedPayloadLength {\n\t\t\tpayload = compressedPayload\n\t\t\tif segment.Header.CompressedPayloadLength == segment.Header.UncompressedPayloadLength {\n\t\t\t\tsegment.Header.CompressedPayloadLength, segment.Header.UncompressedPayloadLength = segment.Header.UncompressedPayloadLength, 0\n\t\t\t}",
+  "encode-decision:", "compressed bytes sent under a header that says stored as is")
+
 
 json.dump(C, open(os.path.join(os.path.dirname(os.path.abspath(__file__)), "controls.json"), "w"), indent=1)
 print(len(C), "controls")
